@@ -77,7 +77,9 @@ def _estimate_system_molecular_weight(molecules, system_molweight):
 
     if len(estimated_weights) > 1:
         for i in range(len(estimated_weights) - 1):
-            if abs(estimated_weights[i] - estimated_weights[i + 1]) > 1e-6:
+            # Masses of the same system may differ by floating point rounding, which grows with their size.
+            tolerance = 1e-6 + 1e-9 * max(abs(estimated_weights[i]), abs(estimated_weights[i + 1]))
+            if abs(estimated_weights[i] - estimated_weights[i + 1]) > tolerance:
                 raise RuntimeError(
                     f"System described with inconsistent mol weights {estimated_weights}."
                 )
